@@ -759,6 +759,105 @@ def classify(case, obs):
     return None
 
 
+def _bad_loads(obs):
+    """Python-side reading of the main clause of check_spec: a stored root that does not load back as the same pulse"""
+    if 'crash' in obs or 'hang' in obs:
+        return True
+    return any(not (b.get('ok') and b.get('eq') and b.get('iface') and b.get('dur') and b.get('prog') and b.get('share'))
+               for _, b in obs.get('loads', []))
+
+
+_CHILD_KEYS = ('body', 'tmpl', 'inner', 'lhs', 'rhs')
+
+
+def _node_children(n):
+    out = list(n.get('subs', []))
+    for k in _CHILD_KEYS:
+        v = n.get(k)
+        if isinstance(v, int) and not isinstance(v, bool) and k in n and n['k'] != 'Arithmetic':
+            out.append(v)
+        elif isinstance(v, dict) and 'pt' in v:
+            out.append(v['pt'])
+    return out
+
+
+def _gc(case):
+    """drop roots no operation refers to and nodes no root reaches; renumber"""
+    import copy
+    used_roots = sorted({ri for _, ri in case['ops']})
+    rmap = {r: k for k, r in enumerate(used_roots)}
+    roots = [case['roots'][r] for r in used_roots]
+    keep, todo = set(), list(roots)
+    while todo:
+        i = todo.pop()
+        if i not in keep:
+            keep.add(i)
+            todo.extend(_node_children(case['nodes'][i]))
+    order = sorted(keep)
+    nmap = {i: k for k, i in enumerate(order)}
+    nodes = []
+    for i in order:
+        n = copy.deepcopy(case['nodes'][i])
+        if 'subs' in n:
+            n['subs'] = [nmap[c] for c in n['subs']]
+        for k in _CHILD_KEYS:
+            v = n.get(k)
+            if isinstance(v, int) and not isinstance(v, bool) and n['k'] != 'Arithmetic':
+                n[k] = nmap[v]
+            elif isinstance(v, dict) and 'pt' in v:
+                n[k] = {'pt': nmap[v['pt']]}
+        nodes.append(n)
+    out = dict(case)
+    out.update(nodes=nodes, roots=[nmap[r] for r in roots], ops=[[w, rmap[ri]] for w, ri in case['ops']])
+    return out
+
+
+def shrink(case, obs, ctx):
+    """store cases whose failure is a bad load: fewer operations, fewer roots / nodes, no optional decorations, fewer
+    identifiers — every candidate is re-run on the implementation and kept only if a stored root still loads back wrong
+    and the classification is unchanged"""
+    import copy
+    if case.get('kind') != 'store' or not _bad_loads(obs):
+        return case, obs
+    cls = classify(case, obs)
+    best, bo = case, obs
+
+    def attempt(cand):
+        nonlocal best, bo
+        try:
+            cand = _gc(cand)
+            G.build(cand['nodes'])
+        except Exception:   # noqa  not a valid forest any more
+            return False
+        o = run_impl(cand)
+        if _bad_loads(o) and 'crash' not in o and 'hang' not in o and classify(cand, o) == cls:
+            best, bo = cand, o
+            return True
+        return False
+    i = 0
+    while i < len(best['ops']) and len(best['ops']) > 1:
+        c = dict(best)
+        c['ops'] = best['ops'][:i] + best['ops'][i + 1:]
+        if not attempt(c):
+            i += 1
+    for key in ('measurements', 'parameter_constraints', 'mmap', 'pmap'):
+        j = 0
+        while j < len(best['nodes']):
+            if best['nodes'][j].get(key):
+                c = copy.deepcopy(best)
+                del c['nodes'][j][key]
+                attempt(c)
+            j += 1
+    j = 0
+    while j < len(best['nodes']):
+        if best['nodes'][j].get('id') is not None and j not in best['roots']:
+            c = copy.deepcopy(best)
+            c['nodes'][j]['id'] = None
+            attempt(c)
+        j += 1
+    return best, bo
+
+
 def search_failing(ctx, broken):
     """spec oracle against the implementation: every stored root must load back equal with equal behaviour"""
     import random
@@ -800,7 +899,9 @@ def search_failing(ctx, broken):
             return case, obs, 'implementation crashed: %s' % obs.get('crash', 'hang')
         for ri, b in obs['loads']:
             if not (b['ok'] and b['eq'] and b['iface'] and b['dur'] and b['prog'] and b['share']):
-                return case, obs, 'stored root %d does not load back as the same pulse: %r' % (ri, b)
+                case, obs = shrink(case, obs, ctx)
+                return case, obs, 'a stored root does not load back as the same pulse: %r' % (
+                    [b2 for _, b2 in obs['loads'] if not all(b2.get(k) for k in ('ok', 'eq', 'iface', 'dur', 'prog', 'share'))][:1],)
     return None
 
 
